@@ -14,7 +14,13 @@ pub fn transpose_matrix<T>(width: usize, height: usize, data: &[T], result: &mut
 where
     T: Copy + 'static,
 {
-    assert_eq!(data.len(), width * height, "Input data shape missmatch");
+    assert_eq!(
+        data.len(),
+        width
+            .checked_mul(height)
+            .expect("Matrix shape overflow: width * height does not fit in usize"),
+        "Input data shape missmatch"
+    );
     assert_eq!(
         data.len(),
         result.len(),
@@ -83,7 +89,13 @@ unsafe fn generic_transpose<T, R>(
     T: Copy,
     R: SimdRegister<T> + TransposeMatrix<T>,
 {
-    assert_eq!(data.len(), width * height, "Input data shape missmatch");
+    assert_eq!(
+        data.len(),
+        width
+            .checked_mul(height)
+            .expect("Matrix shape overflow: width * height does not fit in usize"),
+        "Input data shape missmatch"
+    );
     assert_eq!(
         data.len(),
         result.len(),
